@@ -1389,7 +1389,21 @@ func (z *Decimal) Sub(x, y *Decimal) *Decimal {
 
 	// ±0 - y
 	// x - ±Inf
-	return z.Neg(y)
+	// The sign must be flipped before rounding: it affects the rounding
+	// direction in directed modes and the resulting accuracy.
+	z.acc = Exact
+	if z != y {
+		z.form = y.form
+		if y.form == finite {
+			z.exp = y.exp
+			z.mant = z.mant.set(y.mant)
+		}
+	}
+	z.neg = !y.neg
+	if z.form == finite {
+		z.round(0)
+	}
+	return z
 }
 
 // Uint64 returns the unsigned integer resulting from truncating x
